@@ -89,6 +89,7 @@ def run_unit(arg):
         repo = Repo(repo_root())
         ex = Exec(repo, VERIF)
         c = None
+        searched = {}
         if kind == "contract":
             c = api.REGISTRY[key]
             if c.assumed:
@@ -122,6 +123,44 @@ def run_unit(arg):
                  "note": ob.note, "carries": ob.carries_property, "lineno": ob.lineno}
             if ob.verdict == "discharged" and ob.kind in ("post", "lemma") and tier == "thorough":
                 d["cover"] = cover_check(ob)
+            cand = getattr(ob, "candidate", None)
+            if ob.verdict == "unknown" and isinstance(cand, dict):
+                # solver gave up (incomplete theory) but left a candidate model: a native run of the REAL function on
+                # it that violates exactly this clause is a genuine refutation (nothing is trusted from the solver)
+                try:
+                    if kind == "lemma":
+                        rp = native.replay_lemma(lem, cand)
+                        hit = bool(rp.get("confirmed"))
+                    elif c is not None and ob.kind == "post":
+                        rp = native.replay(c, cand)
+                        clause = ob.name.split("/post.")[-1].split("#")[0]
+                        hit = bool(rp.get("confirmed")) and clause in (rp.get("failed_clauses") or [])
+                    else:
+                        rp, hit = None, False
+                except BaseException:  # noqa
+                    rp, hit = None, False
+                if hit:
+                    ob.verdict, ob.model = "refuted", cand
+                    ob.solver = (ob.solver or "z3") + "+native-replay"
+                    ob.note += " [solver unknown; its candidate model fails natively on the real function]"
+                    d.update(verdict="refuted", solver=ob.solver, note=ob.note)
+            if ob.verdict == "unknown" and c is not None and ob.kind == "post" and "/post.ensures_" in ob.name:
+                # explicit witness supplied by the contract (`witness_<clause>()` -> concrete inputs): the solver could
+                # not decide the clause, a native run of the REAL function on the witness that satisfies `requires`
+                # and violates exactly this clause refutes it (re-validated on every run; nothing is trusted)
+                clause = ob.name.split("/post.")[-1].split("#")[0]
+                wfn = c.native("witness_" + clause[len("ensures_"):])
+                if wfn is not None:
+                    try:
+                        wit = wfn()
+                        rp = native.replay(c, wit)
+                        if rp.get("confirmed") and clause in (rp.get("failed_clauses") or []):
+                            ob.verdict, ob.model = "refuted", wit
+                            ob.solver = "native-witness"
+                            ob.note += " [solver unknown; the contract's witness fails natively on the real function]"
+                            d.update(verdict="refuted", solver=ob.solver, note=ob.note, witness_confirmed=True, witness=wit)
+                    except BaseException as e:  # noqa
+                        d["note"] = (d.get("note") or "") + f" [witness error {e!r}]"[:200]
             if ob.verdict == "refuted":
                 inputs = ob.model if isinstance(ob.model, dict) else {}
                 d["model_inputs"] = inputs
@@ -136,6 +175,16 @@ def run_unit(arg):
                         d["replay"] = native.replay(c, inputs)
                     except BaseException as e:  # noqa
                         d["replay"] = {"confirmed": False, "error": repr(e)[:500]}
+                if c is not None and ob.kind in ("post", "raises", "frame", "safe") and not (d.get("replay") or {}).get("confirmed") \
+                        and not searched.get(key):
+                    searched[key] = True
+                    try:
+                        from pyvc import selftest
+                        w = selftest.search_witness(repo, c, seed)
+                        if w is not None:
+                            d["replay"] = w
+                    except BaseException:  # noqa
+                        pass
             out["obligations"].append(d)
     except BaseException as e:  # noqa
         out["crash"] = traceback.format_exc()
